@@ -153,6 +153,19 @@ class CutAndMerge(Contract):
         else:
             V.oblige("post:unchanged-without-list-or-one-group-per-row", False)
         V.oblige("post:list-absent-only-if-no-limit-given", z3.BoolVal(isinstance(L, NoneV) == (variant == "none,none")))
+        # threading: the deletion works on the merged matrix *with the index list the merge returned*
+        calls = V.ctx.__dict__.get("reducer_calls", [])
+        names = [c["fn"] for c in calls]
+        want = {"none,none": [], "lower,none": ["merge_matrix_cells"], "none,upper": ["delete_rate_cells"],
+                "lower,upper": ["merge_matrix_cells", "delete_rate_cells"]}[variant]
+        V.oblige("post:steps-performed", z3.BoolVal(names == want))
+        if names == want and variant == "lower,upper":
+            V.oblige("post:index-list-threaded-from-merge-to-delete",
+                     z3.BoolVal(calls[1]["index_list"] is calls[0]["out_list"] and calls[1]["matrix"] is calls[0]["out_matrix"]))
+        if names == want and want:
+            V.oblige("post:returns-the-last-step's-result", z3.BoolVal(M is calls[-1]["out_matrix"] and L is calls[-1]["out_list"]))
+            V.oblige("post:first-step-starts-from-the-given-matrix-without-list",
+                     z3.BoolVal(calls[0]["matrix"] is env["Q"] and isinstance(calls[0]["index_list"], NoneV)))
 
 
 class ReducerAssumed(Contract):
@@ -182,6 +195,7 @@ class ReducerAssumed(Contract):
         ctx.assume(z3.And(r >= 0, r <= zint(M.nrows)))
         R = Sparse(M.fmt, r, r, dense=lambda c, i, j: Num(c.real("entry"), False), rowsum=lambda c, i: z3.RealVal(0))
         L = Vec(r, lambda k: Opaque("group"), kind="list", elem="obj")
+        ctx.__dict__.setdefault("reducer_calls", []).append({"fn": self.target.split("::")[1], "matrix": M, "index_list": idx, "out_matrix": R, "out_list": L})
         return Tup([R, L])
 
 
